@@ -184,3 +184,88 @@ def _mut_drop_lower(fn):
             n.test = ast.Constant(value=False)
             cnt += 1
     return cnt
+
+
+# ------------------------------------------------------------------------------------------------ __tryLogCompaction
+@unit(name='tryLogCompaction', relpath=MOD, qual=[COMPACT], props=['C09', 'C06', 'C01'],
+      doc='O9.1: the tuple handed to serialize is (attributes outside __properies, log[applied], log[applied-1], voters + self) with id '
+          'log[applied-1].idx, only when idle and two entries end at applied; O6.4: the journal is trimmed only on a tick where '
+          'checkSerializing reported SUCCESS, and exactly up to the reported id',
+      assumptions=['logCompactionSplit == False in this unit', 'no consumers in this unit', 'conf.serializer is None'],
+      canaries=[('swap-entries', lambda mod: mutate_function(mod, COMPACT, _mut_swap_entries), ['O9.1.snapshot-point-is-last-applied-and-predecessor']),
+                ('trim-always', lambda mod: mutate_function(mod, COMPACT, _mut_trim_always), ['O6.4.journal-trimmed-only-after-success'])])
+def try_log_compaction(ctx):
+    so = SO(ctx, min(UNIVERSE(), 3))
+    so.assume_inv()
+    ctx.assume(Not(so.conf('logCompactionSplit')))
+    ctx.assume(Not(so.get('selfNode').isnone))
+    log0 = so.log()
+    a0 = so.get('raftLastApplied')
+    ctx.assume(And(a0 >= to_z3(log0.first), a0 <= log0.last_idx()))
+    c = ctx.cell(so.selfref)
+    user_attr = Opaque('uservalue', FreshInt('userAttr'))
+    c = c.with_field('userAttr', user_attr)
+    props_ = ctx.alloc(PList([k for k in c.fields if k != 'userAttr'] + ['_SyncObj__properies']))
+    c = c.with_field('_SyncObj__properies', props_)
+    ctx.setcell(so.selfref, c)
+    old = so.snapshot()
+    state, sid = FreshInt('serializeState'), FreshInt('serializeID')
+    ctx.assume(And(state >= 0, state <= 3))
+    ctx.track('serializeState', state)
+    # a reported id is the first entry index of an earlier snapshot point: inside the journal (O9.1 of the earlier call)
+    ctx.assume(Implies(state == 2, And(sid >= to_z3(log0.first), sid + 1 <= log0.last_idx())))
+    calls = []
+    reg = dict(SUMMARIES)
+    reg['Serializer.checkSerializing'] = lambda I, s, a, k: (state, Opt(state == 0, sid))
+    reg['Serializer.serialize'] = lambda I, s, a, k: calls.append(a)
+    I = make_interp(ctx, so, registry=reg)
+    k, v = run_method(I, so, COMPACT, [])
+    ctx.prove(k == 'ok', 'C09+C06:O9.1.no-exception', info=getattr(v, 'typ', None))
+    if k != 'ok':
+        return
+    log1 = so.log()
+    trimmed = [op for op in ctx.glist('log_ops') if op[0] == 'delTo']
+    ctx.prove(Implies(state != 2, len(trimmed) == 0) if trimmed else True, 'C06+C09:O6.4.journal-trimmed-only-after-success')
+    if ctx.decide(state == 2, 'success'):
+        ctx.prove(And(Eq(log1.first, sid), log1.last_idx() == log0.last_idx()), 'C06+C09:O6.4.trim-exactly-to-the-snapshot-point')
+        j = FreshInt('j')
+        ctx.prove(Implies(And(j >= sid, j <= log0.last_idx()), And(log1.term_at(j) == log0.term_at(j), log1.cmd_at(j) == log0.cmd_at(j))),
+                  'C06+C09:O6.4.kept-suffix-unchanged')
+    else:
+        ctx.prove(log_same(old.get('raftLog'), log1), 'C06+C09:O6.4.journal-untouched-without-success')
+    ctx.prove(Implies(state != 0, len(calls) == 0) if calls else True, 'C09:O9.1.no-new-dump-while-one-is-pending')
+    ctx.prove(len(calls) <= 1, 'C09:O9.1.at-most-one-dump-per-tick')
+    if calls:
+        (payload, did) = calls[0]
+        ctx.prove(isinstance(payload, tuple) and len(payload) == 4, 'C09:O9.1.payload-shape')
+        data, e1, e0, cluster = payload
+        ctx.prove(And(Eq(e1[1], a0), Eq(e0[1], a0 - 1), Eq(e1[2], log0.term_at(a0)), Eq(e0[2], log0.term_at(a0 - 1)),
+                      Eq(e1[0].id, log0.cmd_at(a0)), Eq(e0[0].id, log0.cmd_at(a0 - 1)), a0 - 1 >= to_z3(log0.first)),
+                  'C09+C01:O9.1.snapshot-point-is-last-applied-and-predecessor')
+        ctx.prove(Eq(did, a0 - 1), 'C09+C06:O9.1.id-is-predecessor-index')
+        dc = ctx.cell(data)
+        ctx.prove(isinstance(dc, PDict) and set(dc.items) == {'userAttr'} and dc.items['userAttr'] is user_attr, 'C09:O9.1.state-is-the-user-attributes')
+        cb = ctx.cell(cluster).bits
+        vb = old.get('otherNodes').bits
+        ctx.prove(And(cb[so.U], *[Iff(cb[i], vb[i]) for i in range(so.U)]), 'C09+C10:O9.1.cluster-is-voters-plus-self')
+    for n, b in field_unchanged(old, so, ['raftCommitIndex', 'raftLastApplied', 'raftCurrentTerm', 'otherNodes']):
+        ctx.prove(b, 'C09+C04:O9.1.frame.%s' % n)
+
+
+def _mut_swap_entries(fn):
+    cnt = 0
+    for n in ast.walk(fn):
+        if isinstance(n, ast.Call) and isinstance(n.func, ast.Attribute) and n.func.attr == 'serialize':
+            t = n.args[0]
+            t.elts[1], t.elts[2] = t.elts[2], t.elts[1]
+            cnt += 1
+    return cnt
+
+
+def _mut_trim_always(fn):
+    cnt = 0
+    for s in fn.body:
+        if isinstance(s, ast.If) and any(isinstance(x, ast.Attribute) and x.attr == 'SUCCESS' for x in ast.walk(s.test)):
+            s.test = ast.parse('serializeID is not None').body[0].value
+            cnt += 1
+    return cnt
